@@ -1,4 +1,6 @@
 """C15 -- HTTP status codes and body shapes follow the mapping.  Spec: spec/httpgate/Status.tla."""
+import enum
+import io
 import logging
 import warnings
 from dataclasses import dataclass
@@ -12,6 +14,7 @@ from vf.tlc import MachineryError
 
 from drivers import _httpgate_util as U
 from vgi_rpc.rpc import ExchangeState, ProducerState, RpcServer, Stream
+from vgi_rpc.utils import ArrowSerializableDataclass
 
 META = {
     "engine": "httpgate",
@@ -62,6 +65,15 @@ class P2(ProducerState):
 
 
 @dataclass
+class P3(ProducerState):
+    n: int = 0
+
+    def produce(self, out, ctx):
+        EVENTS.append("process")
+        raise ValueError("producer blew up on its first turn")
+
+
+@dataclass
 class E1(ExchangeState):
     k: int = 0
 
@@ -80,8 +92,33 @@ class E2(ExchangeState):
         raise ValueError("exchange blew up")
 
 
+@dataclass(frozen=True)
+class Item(ArrowSerializableDataclass):
+    """dataclass parameter: travels as a binary column holding a nested Arrow IPC stream"""
+    name: str
+    qty: int
+
+
+@dataclass(frozen=True)
+class OldItem(ArrowSerializableDataclass):
+    """what an out-of-date caller would send for Item: no ``qty``"""
+    name: str
+
+
+class Color(enum.Enum):
+    RED = "red"
+    GREEN = "green"
+
+
 class Svc(Protocol):
     protocol_version: ClassVar[str] = PV
+
+    # one method per route / outcome whose parameters cover every wire kind: scalar, dataclass (nested IPC), enum
+    # (dictionary-encoded name), dict (map), frozenset (list), optional dataclass
+    def mix(self, data: bytes, item: Item, color: Color, m: dict[str, int], s: frozenset[int], maybe: Item | None) -> int: ...
+    def mix_fail(self, data: bytes, item: Item, color: Color, m: dict[str, int], s: frozenset[int], maybe: Item | None) -> int: ...
+    def mixp(self, data: bytes, item: Item, color: Color, m: dict[str, int], s: frozenset[int], maybe: Item | None) -> Stream[P1]: ...
+    def mix_bad_init(self, data: bytes, item: Item, color: Color, m: dict[str, int], s: frozenset[int], maybe: Item | None) -> Stream[P1]: ...
 
     def echo(self, data: bytes) -> bytes: ...
     def fail(self, data: bytes) -> bytes: ...
@@ -89,10 +126,29 @@ class Svc(Protocol):
     def exch(self, pad: bytes) -> Stream[E1]: ...
     def bad_init(self, pad: bytes) -> Stream[P1]: ...
     def prod_fail(self, pad: bytes) -> Stream[P2]: ...
+    def prod_fail_first(self, pad: bytes) -> Stream[P3]: ...
     def exch_fail(self, pad: bytes) -> Stream[E2]: ...
 
 
 class Impl:
+    def mix(self, data: bytes, item: Item, color: Color, m: dict[str, int], s: frozenset[int], maybe: Item | None) -> int:
+        EVENTS.append("impl")
+        if not (isinstance(item, Item) and isinstance(color, Color) and isinstance(m, dict) and isinstance(s, frozenset)):
+            EVENTS.append("bad-arg-types")
+        return item.qty
+
+    def mix_fail(self, data: bytes, item: Item, color: Color, m: dict[str, int], s: frozenset[int], maybe: Item | None) -> int:
+        EVENTS.append("impl")
+        raise ValueError("mix blew up")
+
+    def mixp(self, data: bytes, item: Item, color: Color, m: dict[str, int], s: frozenset[int], maybe: Item | None) -> Stream[P1]:
+        EVENTS.append("impl")
+        return Stream(output_schema=OUT, state=P1())
+
+    def mix_bad_init(self, data: bytes, item: Item, color: Color, m: dict[str, int], s: frozenset[int], maybe: Item | None) -> Stream[P1]:
+        EVENTS.append("impl")
+        raise ValueError("mix init blew up")
+
     def echo(self, data: bytes) -> bytes:
         EVENTS.append("impl")
         return data[:16]
@@ -117,6 +173,10 @@ class Impl:
         EVENTS.append("impl")
         return Stream(output_schema=OUT, state=P2())
 
+    def prod_fail_first(self, pad: bytes) -> Stream[P3]:
+        EVENTS.append("impl")
+        return Stream(output_schema=OUT, state=P3())
+
     def exch_fail(self, pad: bytes) -> Stream[E2]:
         EVENTS.append("impl")
         return Stream(output_schema=OUT, state=E2(), input_schema=IN)
@@ -124,15 +184,45 @@ class Impl:
 
 def _authenticate(req):
     from vgi_rpc.rpc import AuthContext
-    if req.get_header("Authorization") == "Bearer ok":
+    h = req.get_header("Authorization")
+    if h == "Bearer ok":
         return AuthContext(domain="test", authenticated=True, principal="alice")
+    if h == "Bearer bob":
+        return AuthContext(domain="test", authenticated=True, principal="bob")
+    if h == "Bearer forbidden":
+        raise PermissionError("not allowed here")
     raise ValueError("missing or bad credential")
 
 
+class _Provider:
+    def __init__(self, fail: bool):
+        self.fail = fail
+
+    def generate_upload_url(self, schema):
+        from datetime import datetime, timezone
+
+        from vgi_rpc.external import UploadUrl
+        EVENTS.append("provider")
+        if self.fail:
+            raise RuntimeError("storage said no")
+        return UploadUrl(upload_url="https://storage.invalid/put", download_url="https://storage.invalid/get",
+                         expires_at=datetime(2030, 1, 1, tzinfo=timezone.utc))
+
+
+UPLOAD = "__upload_url__"
+DESCRIBE = "__describe__"
+
+
 VMD = {world.K_PROTOVER: PV.encode()}
-UNARY = {"known": ["echo"], "failing": ["fail"], "unknown": ["nosuch", "Echo"], "mismatched": ["prod", "exch"]}
-INIT = {"known": ["prod", "exch"], "failing": ["bad_init"], "unknown": ["nosuch"], "mismatched": ["echo"]}
+UNARY = {"known": ["echo"], "failing": ["fail"], "unknown": ["nosuch", "Echo"], "mismatched": ["prod", "exch"],
+         "describe": [DESCRIBE]}
+INIT = {"known": ["prod", "exch"], "failing": ["bad_init", "prod_fail_first"], "unknown": ["nosuch"], "mismatched": ["echo"]}
+UPLOADS = {"known": [UPLOAD], "failing": [UPLOAD]}
 EXCH = {"known": ["prod", "exch"], "failing": ["prod_fail", "exch_fail"], "unknown": ["nosuch"], "mismatched": ["echo"]}
+# the same four method classes for the rows that exercise a non-scalar parameter kind
+UNARY_MIX = {"known": ["mix"], "failing": ["mix_fail"], "unknown": ["nosuch_mix"], "mismatched": ["mixp"]}
+INIT_MIX = {"known": ["mixp"], "failing": ["mix_bad_init"], "unknown": ["nosuch_mix"], "mismatched": ["mix"]}
+PCOL = {"scalar": "data", "dataclass": "item", "enum": "color", "dict": "m", "set": "s"}
 WRONG_CT = ["application/json", "text/plain", "application/octet-stream", "application/vnd.apache.arrow.file",
             "application/x-www-form-urlencoded"]
 
@@ -145,6 +235,10 @@ class Builder:
 
     # ---- well-formed request of a class ------------------------------------------------------------------
     def param_schema(self, name: str) -> pa.Schema:
+        if name == DESCRIBE:
+            return pa.schema([])
+        if name == UPLOAD:
+            return pa.schema([pa.field("count", pa.int64())])
         info = self.s.methods.get(name)
         return info.params_schema if info is not None else pa.schema([pa.field("data", pa.binary())])
 
@@ -154,10 +248,81 @@ class Builder:
         meta = dict(VMD)
         if md:
             meta.update(md)
+        if url_name in (DESCRIBE, UPLOAD):
+            # no binary parameter to carry the payload: it rides in an extra metadata key (ignored by the server)
+            if payload:
+                meta[b"x-pad"] = payload
+            payload = self.rng.choice([1, 2, 3])
         meta = {k: v for k, v in meta.items() if v is not None}
         name = url_name if md_name is ... else md_name
         return world.raw_request(None if name is None else name.encode(), schema, {col: payload} if col else {},
                                  md=meta, request_version=request_version, batch=batch)
+
+    # ---- parameter kinds / value defects ----------------------------------------------------------------------
+    def nested(self, pval: str) -> bytes | None:
+        """the bytes of the dataclass column for a value class"""
+        rng = self.rng
+        good = Item(rng.choice(["a", "widget", ""]), rng.randrange(0, 1000)).serialize_to_bytes()
+        if pval == "ok":
+            return good
+        if pval == "null":
+            return None
+        if pval == "nested_corrupt":
+            return rng.choice([b"garbage" * rng.randrange(1, 9), rng.randbytes(rng.randrange(1, 200)),
+                               b"ABCD" + good[4:], good[:8] + b"\xff" * 40 + good[48:]])
+        if pval == "nested_empty":
+            return rng.choice([b"", world.ipc_stream(Item("a", 1)._serialize().schema, [])])
+        if pval == "nested_truncated":
+            n = len(good)
+            for _ in range(30):
+                cut = rng.choice([n - 9 - rng.randrange(0, 8), n - 12, n // 2, rng.randrange(1, n - 8), 8, 3])
+                if 0 < cut < n - 8 and not self._parses(good[:cut]):
+                    return good[:cut]
+            raise MachineryError("no truncation point for the nested stream")
+        if pval == "nested_shape":
+            one = Item("a", 1)._serialize()
+            k = rng.randrange(3)
+            if k == 0:                                       # written by an older version of the dataclass
+                return OldItem("a").serialize_to_bytes()
+            rows = [one, one] if k == 1 else []              # two rows / no row
+            sink = io.BytesIO()
+            with pa.ipc.new_stream(sink, one.schema) as w:
+                if rows:
+                    w.write_batch(pa.Table.from_batches(rows).combine_chunks().to_batches()[0])
+                else:
+                    w.write_batch(one.slice(0, 0))
+            return sink.getvalue()
+        raise MachineryError(f"dataclass value class {pval}")
+
+    def param_request(self, name: str, pkind: str, pval: str) -> bytes:
+        """a well-framed request (right columns, right Arrow types, right metadata) whose parameter of kind
+        ``pkind`` carries a value of class ``pval``; every other parameter is good"""
+        rng = self.rng
+        schema = self.s.methods[name].params_schema if name in self.s.methods else self.s.methods["mix"].params_schema
+        if "item" not in schema.names:                        # scalar-only methods (pkind = scalar, pval = null)
+            col = schema.names[0]
+            arr = pa.array([None if pval == "null" else rng.randbytes(20)], type=schema.field(0).type)
+            return self.request(name, b"", batch=pa.RecordBatch.from_arrays([arr], schema=schema))
+        row = {"data": rng.randbytes(rng.choice([0, 7, 500])), "item": self.nested("ok"),
+               "color": rng.choice(["RED", "GREEN"]), "m": rng.choice([[], [("k", 1)], [("a", 1), ("b", 2)]]),
+               "s": rng.choice([[], [1, 2, 3]]), "maybe": rng.choice([None, self.nested("ok")])}
+        col = PCOL[pkind]
+        if pkind == "dataclass":
+            row["item"] = self.nested(pval)
+        elif pval == "null":
+            row[col] = None
+        elif pval == "unknown_member":
+            row["color"] = rng.choice(["PURPLE", "red", "", "Red", "RED "])
+        arrays = [pa.array([row[f.name]], type=f.type) for f in schema]
+        return self.request(name, b"", batch=pa.RecordBatch.from_arrays(arrays, schema=schema))
+
+    def big_compressible(self, route: str, name: str, tokens: dict | None) -> bytes:
+        """a valid request larger than the cap that compresses to far less than the cap"""
+        n = CAP + self.rng.randrange(100, 40000)
+        if route == "exchange":
+            rows = n // 8
+            return world.ipc_stream(IN, [(pa.RecordBatch.from_pydict({"a": [7] * rows}, schema=IN), dict(tokens or {}))])
+        return self.request(name, b"\x00" * n)
 
     def body(self, route: str, name: str, cls: str, size: str, tokens: dict | None, token_cls: str) -> bytes | None:
         rng = self.rng
@@ -299,6 +464,8 @@ def encode(body: bytes, cenc: str, rng, big: bool):
     if cenc == "none":
         return None, body
     if cenc == "supported":
+        if not big and rng.random() < 0.15:
+            return rng.choice(["identity", "IDENTITY"]), body
         if rng.random() < 0.5:
             return rng.choice(["zstd", "ZSTD"]), U.zstd_frame(body, sized=rng.random() < 0.7)
         return rng.choice(["gzip", "GZIP"]), U.gzip_member(body)
@@ -322,81 +489,146 @@ def encode(body: bytes, cenc: str, rng, big: bool):
 def run(ctx: Ctx) -> None:
     warnings.filterwarnings("ignore")
     logging.disable(logging.CRITICAL)
+    import time
+
     from vgi_rpc.http.server import make_wsgi_app
 
     invs = ["No5xxRow", "NeverEmpty", "OnlyMappedStatuses", "TwoHundredIffClean", "MarkerOnlyOnDispatch",
-            "SingleFaultExact", "ArrowExceptions", "AuthIndependentOfRoute"]
+            "SingleFaultExact", "ArrowExceptions", "AuthIndependentOfRoute", "ParamRejectionIs400", "ParamKindIrrelevant",
+            "DescribeIgnoresVersion", "BadTokenIs400"]
     cases = U.enumerate_split(ctx, "httpgate", "Status", invariants=invs)
     ctx.exhaustive = True
-    ctx.rule = ("case = consistent row of Status!Space (route, method class, body class, content type, content encoding, "
-                "token, auth, size), all enumerated by TLC; every row executed (quick: 1, thorough: 6 seeded "
-                "concretisations); non-trivial = distinct (row, method name, wire body hash, headers) requests. Oracle "
-                "is set-valued for rows with several faults (no precedence in the statement).")
-    ctx.assume("supported content encodings are zstd and gzip (identity is judged by C17)",
+    ctx.rule = ("case = consistent row of Status!Space (route incl. the upload-url route, method class incl. __describe__, "
+                "body class, parameter kind, parameter value class, content type, content encoding, token class, auth, "
+                "size), all enumerated by TLC; every row executed (quick: 1, thorough: 4 seeded concretisations); "
+                "non-trivial = distinct (row, method name, wire body hash, headers, app) requests. Oracle is set-valued "
+                "for rows with several faults (no precedence in the statement). Concretisations alternate between apps "
+                "with prefix '' and '/vgi' and sometimes ask for a compressed response (the body is decoded first).")
+    ctx.assume("supported content encodings are zstd, gzip and identity",
                "a truncated body is cut at least 9 bytes before its end (the 8-byte EOS marker is optional in Arrow IPC)",
                "a corrupted body is one pyarrow itself refuses to parse",
                "'empty' is a zero-length body or an IPC stream with a schema and no batch",
-               f"every app has max_request_bytes={CAP}; oversize bodies exceed it on the wire")
+               f"every app has max_request_bytes={CAP}; oversize bodies exceed it on the wire or after decoding",
+               "expired tokens come from apps built with token_ttl=1 and are at least 2.2 s old when presented",
+               "auth reject = no / unknown credential (ValueError) or a credential the authenticator refuses with "
+               "PermissionError")
 
-    server = RpcServer(Svc, Impl())
-    apps = {"none": make_wsgi_app(server, token_key=b"k" * 32, max_request_bytes=CAP),
-            "auth": make_wsgi_app(server, token_key=b"k" * 32, max_request_bytes=CAP, authenticate=_authenticate)}
+    server = RpcServer(Svc, Impl(), enable_describe=True)
     bld = Builder(server, ctx.rng)
-    cred = {"Authorization": "Bearer ok"}
+    apps: dict = {}
+    minted: dict = {}
+    STREAMS = ("prod", "exch", "prod_fail", "exch_fail")
 
-    tokens: dict = {}
-    for akey, app in apps.items():
-        for name in ("prod", "exch", "prod_fail", "exch_fail"):
-            st, hd, b = U.wsgi_call(app, "POST", f"/{name}/init", bld.request(name, b""),
-                                    {"Content-Type": U.ARROW_CT, **cred})
+    def app_for(auth: bool, failprov: bool, short_ttl: bool, prefix: str):
+        k = (auth, failprov, short_ttl, prefix)
+        if k not in apps:
+            kw = {"token_key": b"k" * 32, "max_request_bytes": CAP, "upload_url_provider": _Provider(failprov),
+                  "prefix": prefix}
+            if auth:
+                kw["authenticate"] = _authenticate
+            if short_ttl:
+                kw["token_ttl"] = 1
+            apps[k] = make_wsgi_app(server, **kw)
+        return apps[k]
+
+    def mint(k, name: str, who: str, instance: int = 0) -> dict:
+        """state + call tokens of a fresh stream of method ``name`` opened by principal ``who`` on app ``k``"""
+        mk = (k, name, who, instance)
+        if mk not in minted:
+            st, hd, b = U.wsgi_call(app_for(*k), "POST", f"{k[3]}/{name}/init", bld.request(name, b""),
+                                    {"Content-Type": U.ARROW_CT, "Authorization": f"Bearer {who}"})
             if st != 200:
                 raise MachineryError(f"init of {name} failed with {st}")
-            tokens[(akey, name)] = U.tokens_of(b)
+            minted[mk] = (U.tokens_of(b), time.time())
+        return minted[mk][0]
+
+    # expired tokens: mint them first so that they have aged by the time their rows come up
+    for auth in (False, True):
+        for prefix in ("", "/vgi"):
+            for name in STREAMS:
+                mint((auth, False, True, prefix), name, "ok")
+    t_expired_ready = time.time() + 2.2
 
     obs: list[dict] = []
-    nvar = 1 if ctx.quick else 6
-    for cj in cases:
+    nvar = 1 if ctx.quick else 4
+    for ci, cj in enumerate(cases):
         c = cj["case"]
         route = c["route"]
-        names = {"unary": UNARY, "init": INIT, "exchange": EXCH}[route][c["meth"]]
+        mixrow = c["pkind"] != "scalar"
+        names = ({"unary": UNARY_MIX, "init": INIT_MIX}[route] if mixrow
+                 else {"unary": UNARY, "init": INIT, "exchange": EXCH, "upload": UPLOADS}[route])[c["meth"]]
         for v in range(nvar):
-            name = names[(v + ctx.rng.randrange(len(names))) % len(names)]
-            akey = "none" if c["auth"] == "none" else "auth"
-            app = apps[akey]
+            rng = ctx.rng
+            name = names[(v + rng.randrange(len(names))) % len(names)]
+            prefix = ("", "/vgi")[(ci + v) % 2]
+            k = (c["auth"] != "none", route == "upload" and c["meth"] == "failing", c["token"] == "expired", prefix)
+            app = app_for(*k)
             tk = None
             if route == "exchange":
-                tname = name if (akey, name) in tokens else ctx.rng.choice(["prod", "exch"])
+                tname = name if name in STREAMS else rng.choice(["prod", "exch"])
                 bld._token_kind = "prod" if tname.startswith("prod") else "exch"
-                tk = tokens[(akey, tname)]
+                if c["token"] == "foreign_method":
+                    other = {"prod": "exch", "exch": "prod", "prod_fail": "exch_fail", "exch_fail": "prod_fail"}[tname]
+                    tk = mint(k, other, "ok")
+                elif c["token"] == "foreign_principal":
+                    tk = mint(k, tname, "bob")
+                elif c["token"] == "foreign_call":
+                    a, b = mint(k, tname, "ok", 1), mint(k, tname, "ok", 2)
+                    skey = next(x for x in a if b"stream_state" in x)
+                    tk = {x: (a[x] if x == skey else b[x]) for x in a}
+                else:
+                    tk = mint(k, tname, "ok")
+                    if c["token"] == "expired" and time.time() < t_expired_ready:
+                        time.sleep(t_expired_ready - time.time())
+            tclass = c["token"] if c["token"] in ("tampered", "missing") else "valid"
             wire = None
+            over_wire = c["size"] == "over"
             for _attempt in range(12):
-                body = bld.body(route, name, c["body"], c["size"], tk, c["token"])
-                ce, w = encode(body, c["cenc"], ctx.rng, c["size"] == "over")
-                if c["size"] == "over" and len(w) <= CAP and c["cenc"] in ("unsupported", "corrupt"):
-                    w = w + bytes(ctx.rng.randrange(256) for _ in range(CAP + 1 - len(w)))
-                if (len(w) > CAP) == (c["size"] == "over"):
+                if mixrow or c["pval"] != "ok":
+                    body = bld.param_request(name, c["pkind"], c["pval"])
+                elif c["size"] == "over_decoded":
+                    body = bld.big_compressible(route, name, tk)
+                else:
+                    body = bld.body(route, name, c["body"], "over" if over_wire else "ok", tk, tclass)
+                ce, w = encode(body, c["cenc"], rng, over_wire)
+                if over_wire and len(w) <= CAP and c["cenc"] in ("unsupported", "corrupt"):
+                    w = w + bytes(rng.randrange(256) for _ in range(CAP + 1 - len(w)))
+                if (len(w) > CAP) == over_wire and (c["size"] != "over_decoded" or len(body) > CAP):
                     wire = w
                     break
             if wire is None:
                 raise MachineryError(f"could not build a body of the right size class for row {c}")
-            ct = U.ARROW_CT if c["ctype"] == "correct" else None if c["ctype"] == "missing" else ctx.rng.choice(WRONG_CT)
+            ct = U.ARROW_CT if c["ctype"] == "correct" else None if c["ctype"] == "missing" else rng.choice(WRONG_CT)
             headers = {"Content-Type": ct, "Content-Encoding": ce}
-            if c["auth"] == "accept" or (c["auth"] == "none" and ctx.rng.random() < 0.3):
-                headers.update(cred)
-            elif c["auth"] == "reject" and ctx.rng.random() < 0.5:
-                headers["Authorization"] = ctx.rng.choice(["Bearer nope", "Basic b2s6b2s=", ""])
-            path = {"unary": f"/{name}", "init": f"/{name}/init", "exchange": f"/{name}/exchange"}[route]
+            if c["auth"] == "accept" or (c["auth"] == "none" and rng.random() < 0.3):
+                headers["Authorization"] = "Bearer ok"
+            elif c["auth"] == "reject" and rng.random() < 0.6:
+                headers["Authorization"] = rng.choice(["Bearer nope", "Basic b2s6b2s=", "", "Bearer forbidden"])
+            want_coding = rng.choice([None, None, None, "zstd", "gzip"])
+            if want_coding:
+                headers[rng.choice(["Accept-Encoding", "X-VGI-Accept-Encoding"])] = want_coding
+            path = prefix + {"unary": f"/{name}", "init": f"/{name}/init", "exchange": f"/{name}/exchange",
+                             "upload": f"/{UPLOAD}/init"}[route]
             del EVENTS[:]
             st, hd, out = U.wsgi_call(app, "POST", path, wire, headers)
             rct = (U.hget(hd, "content-type") or "")
-            shape = U.arrow_shape(out) if rct.startswith(U.ARROW_CT) else {"arrow": False, "marker": False}
-            dispatched = ("process" in EVENTS) if route == "exchange" else ("impl" in EVENTS)
+            coding = (U.hget(hd, "Content-Encoding") or U.hget(hd, "X-VGI-Content-Encoding") or "").strip().lower()
+            plain = U.decode_coding(coding, out) if coding else out
+            shape = (U.arrow_shape(plain) if (plain is not None and rct.startswith(U.ARROW_CT))
+                     else {"arrow": False, "marker": False})
+            if c["meth"] == "describe":
+                dispatched = st == 200 and bool(shape["arrow"]) and not shape["marker"]
+            elif route == "upload":
+                dispatched = "provider" in EVENTS
+            else:
+                dispatched = ("process" in EVENTS) if route == "exchange" else ("impl" in EVENTS)
             o = {"status": st, "marker": (U.hget(hd, "X-VGI-RPC-Error") or "").strip().lower() == "true",
                  "arrow": bool(shape["arrow"]), "errbatch": bool(shape["marker"]), "dispatched": dispatched}
             obs.append({"case": c, "obs": o, "_e": cj["exp"],
                         "_x": {"path": path, "content_type": ct, "content_encoding": ce, "wire_len": len(wire),
+                               "asked_response_coding": want_coding, "response_coding": coding or None,
                                "response_content_type": rct, "response_head": out[:120].decode("latin-1")}})
-            ctx.case([c, name, hash(wire), ct, ce, sorted(headers)])
+            ctx.case([c, name, hash(wire), ct, ce, sorted(headers.items(), key=str), k])
     for o in obs[:: max(1, len(obs) // 5)][:5]:
         ctx.sample({"row": o["case"], "admissible": o["_e"], "concrete": {k: v for k, v in o["_x"].items() if k != "response_head"},
                     "observed": o["obs"]})
@@ -406,7 +638,8 @@ def run(ctx: Ctx) -> None:
         c = o["case"]
         rct = o["_x"]["response_content_type"].split(";")[0]
         for cl in clauses:
-            ctx.violation(cl, {"route": c["route"], "meth": c["meth"], "body": c["body"], "ctype": c["ctype"],
+            ctx.violation(cl, {"route": c["route"], "meth": c["meth"], "body": c["body"], "pkind": c["pkind"],
+                               "pval": c["pval"], "ctype": c["ctype"],
                                "cenc": c["cenc"], "token": c["token"], "auth": c["auth"], "size": c["size"],
                                "status": o["obs"]["status"], "response_type": rct,
                                "single_fault": o["_e"]["faults"] <= 1},
